@@ -4,7 +4,7 @@ usage: tools/run_seeded.py [id ...]      (always restores /repo)"""
 import json, os, subprocess, sys, glob, re
 V = "/verif"
 EXTRA = {"C01-A": ["C13", "C12"], "C02-B": ["C10", "C12"], "C18-B": ["C10"], "C19-B": ["C14"], "C01-C": ["C04"], "C01-D": ["C08", "C20"],
-         "C09-C": ["C13"], "C12-C": ["C13"], "C03-D": ["C05"], "C10-C": ["C11"], "C11-C": ["C13"]}   # cross-property detection worth recording
+         "C09-C": ["C13"], "C12-C": ["C13"], "C03-D": ["C05"], "C10-C": ["C11"], "C11-C": ["C13"], "C15-C": ["C01"], "C19-C": ["C14"], "C14-D": ["C04"]}   # cross-property detection worth recording
 ids = sys.argv[1:] or sorted(os.path.basename(d) for d in glob.glob(V + "/seeded/*") if os.path.isdir(d))
 rows = []
 for i in ids:
